@@ -8,6 +8,7 @@ package props
 import (
 	"encoding/json"
 	"fmt"
+	"github.com/Trendyol/go-dcp/couchbase"
 	"sync"
 	"testing"
 	"time"
@@ -85,7 +86,22 @@ func c18ExecWire(w c18Wire) (detail string, labels []string) {
 		// a version that cannot be read must be reported as an error; nothing may be negotiated on a guess
 		labels = append(labels, "wire_unreadable_version")
 		if err == nil {
-			// the parser may accept the string: then it must denote a tuple and gating follows it (checked below)
+			// the parser may accept the string: then it must denote a tuple and gating follows it (checked below);
+			// a text the parser itself rejects denotes no version - the client must not start on a guess
+			if w.Raw != "" {
+				if _, perr := couchbase.VerifParseVersion(w.Raw); perr != nil {
+					if d != nil {
+						closeUnstarted(d)
+					}
+					return fmt.Sprintf("the node's version text %q denotes no version (parser: %v), yet the client was created as server %v and negotiated its features on that guess", w.Raw, perr, got), labels
+				}
+			}
+			if w.Pools != "" {
+				if d != nil {
+					closeUnstarted(d)
+				}
+				return fmt.Sprintf("the version endpoint answered %q, yet the client was created as server %v", w.Pools, got), labels
+			}
 			labels = append(labels, "wire_raw_accepted")
 		} else {
 			if _, opened := ctl["enable_noop"]; opened {
@@ -269,10 +285,10 @@ func c18GenWire(t *rapid.T) c18Wire {
 	w.Run = rapid.IntRange(0, 3).Draw(t, "run") == 0
 	switch rapid.IntRange(0, 19).Draw(t, "bad") {
 	case 0:
-		w.Pools = rapid.SampledFrom([]string{"error", "garbage"}).Draw(t, "pools")
+		w.Pools = rapid.SampledFrom([]string{"error", "garbage", "nofield", "unauthorized"}).Draw(t, "pools")
 		w.Run = false
 	case 1:
-		w.Raw = rapid.SampledFrom([]string{"", "x", "7.x.1-1-enterprise", "7..2", "-", "7.2.0-abc-enterprise", ".", "seven"}).Draw(t, "raw")
+		w.Raw = rapid.SampledFrom([]string{"x", "7.x.1-1-enterprise", "7..2", "-", "7.2.0-abc-enterprise", ".", "seven", "enterprise", "7.2-5325-enterprise", " ", "v7.2.0"}).Draw(t, "raw")
 		w.Run = false
 	}
 	return w
